@@ -68,7 +68,7 @@ hb == <<"h", "b">>
 ua == <<"u", "a">>
 ub == <<"u", "b">>
 LU == <<"@LU@">>                   \* the local user (one atom; real name substituted)
-Canon(h) == h \o <<"c">>           \* canonical name of host h
+Canon(h) == h \o <<".", "c">>      \* canonical name of host h (CanonicalDomains c)
 
 (* targets: host, user given by the caller (<<>> = none), mode *)
 TgtMenu == <<
@@ -161,7 +161,8 @@ SrvUsers == <<
     <<"$", "{", "X", "}">>, <<"C", ":", "a">>, <<"%", "u">>, <<"a", "%", "h">>, <<" ">>, <<>>,
     <<".", ".", "/", "o">>, <<"~">>, <<"%", "%">>, <<".">>, <<"a", ".", ".", "b">>,
     <<"x", "$", "{", "X", "}", "y">>, <<"$", "a">>, <<"c", ":">>, <<"/">>, <<"$", "{", "a">>,
-    <<"a", "%">>, <<"%", "%", "u">>
+    <<"a", "%">>, <<"%", "%", "u">>,
+    <<"$", "{", "C", "F", "G", "V", "}">>, <<"x", "$", "{", "C", "F", "G", "V", "}">>
 >>
 
 LowerName(n) ==
@@ -316,7 +317,11 @@ Eval(prog, tgt, flags) ==
         canon == tgt.mode = "canon"
         cx2 == Cx(IF canon THEN Canon(tgt.host) ELSE tgt.host, canon, s1.fin, flags)
     IN  IF ~(canon \/ s1.fin) THEN Out(s1, cx1, flags.b)
-        ELSE Out(Pass(prog, cx2, IF flags.a THEN St0(tgt.user) ELSE [s1 EXCEPT !.m = TRUE]),
+        ELSE Out(Pass(prog, cx2,
+                      IF flags.a THEN St0(tgt.user)
+                      \* ssh fixes the host name before re-reading the files
+                      ELSE [s1 EXCEPT !.m = TRUE,
+                                      !.hostname = IF canon THEN cx2.host ELSE HostNow(s1, cx1)]),
                  cx2, flags.b)
 
 Rule == [a |-> FALSE, b |-> FALSE, c |-> FALSE]
@@ -361,7 +366,7 @@ WellFormed(p) ==
     /\ (p.b # <<>> => UsesInc(p, "G"))
 RECURSIVE SeqHash(_)
 SeqHash(s) == IF s = <<>> THEN 3 ELSE (SeqHash(Tail(s)) * 53 + Head(s)) % 100003
-Keep(p, t) == (SeqHash(p.main) + 7 * SeqHash(p.a) + 11 * SeqHash(p.b) + 13 * t) % SampleMod = SampleRem
+Keep(p) == (SeqHash(p.main) + 7 * SeqHash(p.a) + 11 * SeqHash(p.b)) % SampleMod = SampleRem
 
 (* canonicalisation is only modelled where the code and ssh use the same names *)
 CanonOK(p) ==
@@ -374,11 +379,11 @@ CanonOK(p) ==
 Init ==
     \/ /\ Mode = "cli"
        /\ kase \in [p : Progs, t : TgtSel]
-       /\ WellFormed(kase.p) /\ Keep(kase.p, kase.t)
+       /\ WellFormed(kase.p) /\ Keep(kase.p)
        /\ (TgtMenu[kase.t].mode = "canon" => CanonOK(kase.p))
     \/ /\ Mode = "srv"
        /\ kase \in [p : Progs, t : 1..Len(SrvUsers)]
-       /\ WellFormed(kase.p) /\ Keep(kase.p, kase.t)
+       /\ WellFormed(kase.p) /\ Keep(kase.p)
 Next == UNCHANGED kase
 Spec == Init /\ [][Next]_vars
 
@@ -476,21 +481,33 @@ NeverAltDiffers == ~(Mode = "cli" /\ \E i \in 1..Len(AltFlags) :
 -----------------------------------------------------------------------------
 (* emission *)
 B2N(x) == IF x THEN 1 ELSE 0
+HasFinalCrit(p) == \E part \in {p.main, p.a, p.b} : \E i \in 1..Len(part) : HasFinal(DirMenu[part[i]].cr)
+SensA(p, t) == t.mode = "canon" \/ HasFinalCrit(p)
+SensB(p, t) == UsesInc(p, "A") \/ UsesInc(p, "G") \/ SensA(p, t)
+SensC(p)    == UsesInc(p, "G")
+Alts(p, t, first) ==
+    SelectSeq(AltFlags, LAMBDA f : /\ (f.a => (~first /\ SensA(p, t)))
+                                   /\ (f.b => SensB(p, t)) /\ (f.c => SensC(p)))
 FlagBits(f) == B2N(f.a) + 2 * B2N(f.b) + 4 * B2N(f.c)
 EmitCli ==
     LET t == TgtMenu[kase.t]
         r == Eval(kase.p, t, Rule)
-        alts == SelectSeq([i \in 1..Len(AltFlags) |-> <<FlagBits(AltFlags[i]), Eval(kase.p, t, AltFlags[i])>>],
+        af == Alts(kase.p, t, FALSE)
+        af1 == Alts(kase.p, t, TRUE)
+        alts == SelectSeq([i \in 1..Len(af) |-> <<FlagBits(af[i]), Eval(kase.p, t, af[i])>>],
                           LAMBDA x : x[2] # r)
-        alts1 == SelectSeq([i \in 1..Len(AltFlags) |-> <<FlagBits(AltFlags[i]), Eval1(kase.p, t, AltFlags[i])>>],
+        alts1 == SelectSeq([i \in 1..Len(af1) |-> <<FlagBits(af1[i]), Eval1(kase.p, t, af1[i])>>],
                            LAMBDA x : x[2] # Eval1(kase.p, t, Rule))
     IN  PrintT(<<"cli", kase.p.main, kase.p.a, kase.p.b, kase.t, Eval1(kase.p, t, Rule), r, alts1, alts>>)
 EmitSrv ==
     LET u == SrvUsers[kase.t]
         r == SrvEval(kase.p, u, Rule)
-        alts == SelectSeq([i \in 1..Len(AltFlags) |-> <<FlagBits(AltFlags[i]), SrvEval(kase.p, u, AltFlags[i])>>],
+        af == SelectSeq(AltFlags, LAMBDA f : ~f.a /\ (f.b => UsesInc(kase.p, "A") \/ UsesInc(kase.p, "G"))
+                                              /\ (f.c => UsesInc(kase.p, "G")))
+        alts == SelectSeq([i \in 1..Len(af) |-> <<FlagBits(af[i]), SrvEval(kase.p, u, af[i])>>],
                           LAMBDA x : x[2] # r)
-    IN  PrintT(<<"srv", kase.p.main, kase.p.a, kase.p.b, kase.t, B2N(Unsafe(u)), r, alts>>)
+    IN  PrintT(<<"srv", kase.p.main, kase.p.a, kase.p.b, kase.t, B2N(Unsafe(u)), r, alts,
+                 RawAkf(kase.p, u)>>)
 EmitCase == Emit => IF Mode = "cli" THEN EmitCli ELSE EmitSrv
 
 MenuDump == <<"menu",
